@@ -1006,11 +1006,90 @@ func round7(w *World, r *Report, prop string) {
 		r.Rule("R11.15", "every error the compiler raises comes back as an error: Compiler.recover re-raises a recovered value only when it is a runtime.Error", 1)
 		r.guard("R11.15", func() { r7RecoverReraisesRuntimeOnly(w, r, "R11.15") })
 	case "C12":
+		r.Rule("R12.15", "a leaf copied in by uses names its identity values like the same leaf written in place: the prefix stripped is the module name of the configuration node (the node as expanded), and BuildBaseType hands that node on unchanged", 2)
+		r.guard("R12.15", func() { r8IdentityNamesRelativeToUser(w, r, "R12.15") })
 		r.Rule("R12.14", "refinements of repeatable statements are additional: in applyChange a statement of cardinality 'n' on the target is added on every path, and replacing is done for cardinality '1' alone", 1)
 		r.guard("R12.14", func() { r8RefineAdds(w, r, "R12.14") })
 		r.Rule("R12.13", "a node copied by uses keeps every if-feature it passed through: IgnoreNode puts each if-feature statement of the node to CheckIfFeature (no skipping of statements with the same text — they may name features of different modules)", 1)
 		r.guard("R12.13", func() { r7EveryIfFeatureChecked(w, r, "R12.13") })
 	case "C13":
+		r.Rule("R13.17", "a range statement is always checked against the base: in getRangeBoundary every exit is reached either with no range statement present or after createRangeBdry (where the derived range is required to be restrictive) — no form of the range is exempt", 1)
+		r.guard("R13.17", func() {
+			f := w.SSAFunc(w.Method("compile", "Compiler", "getRangeBoundary"))
+			crb := w.SSAFunc(w.Method("compile", "Compiler", "createRangeBdry"))
+			if f == nil || crb == nil {
+				panic(undecided{"Compiler.getRangeBoundary / createRangeBdry"})
+			}
+			sym := NewSym(w)
+			sym.Expand = false
+			var made []*ssa.BasicBlock
+			var rng ssa.Value
+			for _, b := range f.Blocks {
+				for _, in := range b.Instrs {
+					if c, ok := in.(*ssa.Call); ok {
+						if c.Call.StaticCallee() == crb {
+							made = append(made, b)
+						}
+						if c.Call.IsInvoke() && nm(c.Call.Method) == "ChildByType" {
+							rng = c
+						}
+					}
+				}
+			}
+			why := ""
+			if len(made) == 0 || rng == nil {
+				why = "createRangeBdry is not called, or the range statement is not looked up"
+			}
+			for _, b := range f.Blocks {
+				if _, isRet := b.Instrs[len(b.Instrs)-1].(*ssa.Return); !isRet || why != "" {
+					continue
+				}
+				through := false
+				for _, mb := range made {
+					through = through || mb == b || mb.Dominates(b)
+				}
+				if through {
+					continue
+				}
+				// otherwise: only when there is no range statement
+				msg := pcImplies(sym.PathCond(f.Blocks[0], b, nil), func(a *pcAtom) string {
+					if a.op == token.EQL && a.x != nil && a.y != nil && ((a.x == rng && isNilConst(a.y)) || (a.y == rng && isNilConst(a.x))) {
+						return "norange"
+					}
+					return ""
+				}, func(env map[string]bool) bool { return env["norange"] })
+				if msg != "" {
+					why = "an exit is reached with a range statement present and without createRangeBdry (" + msg + ")"
+				}
+			}
+			r.Check(why == "", "R13.17", "getRangeBoundary checks every range statement", f.Pos(), "exit ⇒ no range statement ∨ createRangeBdry was called", why+": a derived range of that form is not required to lie within the base's range (e.g. `min..max` over a base with a gap is accepted)")
+		})
+		r.Rule("R13.16", "what counts as a restriction: NodeType.IsTypeRestriction holds exactly for the statement kinds declared between NodeTypeRestrictionStart and NodeTypeRestrictionEnd (enum and bit included) — validateRestrictions refuses only what it recognises as a restriction", 1)
+		r.guard("R13.16", func() {
+			lo, ok1 := pkgConstInt(w, "parse", "NodeTypeRestrictionStart")
+			hi, ok2 := pkgConstInt(w, "parse", "NodeTypeRestrictionEnd")
+			if !ok1 || !ok2 || hi-lo < 2 {
+				panic(undecided{"parse.NodeTypeRestrictionStart / End"})
+			}
+			itr := w.SSAFunc(w.Method("parse", "NodeType", "IsTypeRestriction"))
+			if itr == nil || len(itr.Params) != 1 || len(ssaLoops(itr)) > 0 {
+				panic(undecided{"parse.NodeType.IsTypeRestriction"})
+			}
+			sym := NewSym(w)
+			got, decided := pcValuesWhenWide(sym.ResultCond(itr, nil), sym.Key(itr.Params[0], nil))
+			if !decided {
+				panic(undecided{"IsTypeRestriction: the kinds it holds for were not decided"})
+			}
+			want := ISet{{lo + 1, hi - 1}}
+			names, _ := nodeTypeNames(w)
+			var missing []string
+			for _, iv := range want.minus(got) {
+				for v := iv.lo; v <= iv.hi && v-iv.lo < 40; v++ {
+					missing = append(missing, names[v])
+				}
+			}
+			r.Check(got.equal(want), "R13.16", "NodeType.IsTypeRestriction", token.NoPos, "true exactly for the kinds between the two markers", "IsTypeRestriction is "+got.String()+", the restriction kinds are "+want.String()+" (not recognised: "+strings.Join(missing, ", ")+"): such a substatement on a type it does not apply to is silently accepted and ignored")
+		})
 		r.Rule("R13.14", "a pattern restricts as a whole: PatternArg.Parse compiles `^(` pattern `)$` on every path — the anchors never bind to the first and last branch of an alternation only", 1)
 		r.guard("R13.14", func() { r7PatternAnchored(w, r, "R13.14") })
 		r.Rule("R13.15", "the default that is validated is the default the type reports: validateDefault hands the first result of t.Default() to t.Validate unchanged", 1)
@@ -1026,6 +1105,8 @@ func round7(w *World, r *Report, prop string) {
 		r.Rule("R15.15", "a prefix is resolved as it is written: the LexName of the leafref and of the common lexer hand the prefix text to the prefix map without changing its case or trimming it", 2)
 		r.guard("R15.15", func() { r7PrefixAsWritten(w, r, "R15.15") })
 	case "C16":
+		r.Rule("R16.19", "identityref values are named relative to the module the leaf is used in: the prefix stripped is the module name of the configuration node, and BuildBaseType hands that node on unchanged when it follows a typedef", 2)
+		r.guard("R16.19", func() { r8IdentityNamesRelativeToUser(w, r, "R16.19") })
 		r.Rule("R16.18", "a derived string type keeps the patterns of its base: every list getPatterns returns is the base's list (or a copy holding all of it) with the own patterns appended", 1)
 		r.guard("R16.18", func() { r7PatternsInherited(w, r, "R16.18") })
 	case "C17":
@@ -1589,4 +1670,73 @@ func r8RefineAdds(w *World, r *Report, rule string) {
 		why = "no AddChildren for cardinality 'n'"
 	}
 	r.Check(why == "", rule, "applyChange: cardinality 'n' adds, cardinality '1' replaces", f.Pos(), "AddChildren ⇔ 'n'; Replace* ⇒ '1'", why+": a must (or another repeatable statement) written in a refine or augment replaces, or is dropped in favour of, one the node already has — RFC 6020 §7.12.2 makes refined musts additional, and each is compiled in the scope of the module it is written in")
+}
+
+// r8IdentityNamesRelativeToUser (R12.15 / R16.19): identity values are named
+// relative to the module the identityref leaf ends up in: the prefix stripped
+// from the full names is GetNodeModulename of the configuration node, and that
+// node travels unchanged through BuildBaseType's descent into a typedef.
+func r8IdentityNamesRelativeToUser(w *World, r *Report, rule string) {
+	closure := identityClosureFunc(w)
+	gi := w.SSAFunc(w.Method("compile", "Compiler", "getIdentities"))
+	// the second argument of strings.TrimPrefix in the closure function
+	var prefix ssa.Value
+	for _, b := range closure.Blocks {
+		for _, in := range b.Instrs {
+			if c, ok := in.(*ssa.Call); ok && c.Call.StaticCallee() != nil && c.Call.StaticCallee().String() == "strings.TrimPrefix" && len(c.Call.Args) == 2 {
+				prefix = c.Call.Args[1]
+			}
+		}
+	}
+	if prefix == nil {
+		panic(undecided{"the identity closure does not strip a module prefix"})
+	}
+	// kept in a field of the walk's state: what was stored there
+	if ld, ok := prefix.(*ssa.UnOp); ok && ld.Op == token.MUL {
+		if fa, isFA := ld.X.(*ssa.FieldAddr); isFA && gi != nil {
+			for _, b := range gi.Blocks {
+				for _, in := range b.Instrs {
+					if st, isSt := in.(*ssa.Store); isSt {
+						if sfa, isS := st.Addr.(*ssa.FieldAddr); isS && sfa.Field == fa.Field && types.Identical(sfa.X.Type(), fa.X.Type()) {
+							prefix = st.Val
+						}
+					}
+				}
+			}
+		}
+	}
+	why := "the prefix is not <module name of the configuration node> + \":\""
+	if bo, ok := prefix.(*ssa.BinOp); ok && bo.Op == token.ADD {
+		if c, isC := bo.X.(*ssa.Call); isC && c.Call.IsInvoke() {
+			switch {
+			case nm(c.Call.Method) != "GetNodeModulename":
+				why = "the prefix is built from " + nm(c.Call.Method) + "(), not from GetNodeModulename(): for a leaf copied in from a grouping of another module that is the module the grouping was written in"
+			default:
+				if _, isP := c.Call.Value.(*ssa.Parameter); isP {
+					why = ""
+				} else {
+					why = "GetNodeModulename is asked of something other than the configuration node handed in"
+				}
+			}
+		}
+	}
+	r.Check(why == "", rule, "identity values are named relative to the module of the configuration node", closure.Pos(), "TrimPrefix(full name, cfgNode.GetNodeModulename(cfgNode.Root()) + \":\")", why+": the value space of the identityref leaf differs from the one the same leaf written in place has (values valid for the inlined leaf are rejected)")
+	// BuildBaseType hands its own configuration node on
+	bbt := w.SSAFunc(w.Method("compile", "Compiler", "BuildBaseType"))
+	bt := w.SSAFunc(w.Method("compile", "Compiler", "BuildType"))
+	if bbt == nil || bt == nil || len(bbt.Params) < 2 {
+		panic(undecided{"Compiler.BuildBaseType / BuildType"})
+	}
+	n, bad := 0, false
+	for _, b := range bbt.Blocks {
+		for _, in := range b.Instrs {
+			if c, ok := in.(*ssa.Call); ok && c.Call.StaticCallee() == bt && len(c.Call.Args) >= 2 {
+				n++
+				if c.Call.Args[1] != ssa.Value(bbt.Params[1]) {
+					bad = true
+				}
+			}
+		}
+	}
+	r.Check(n > 0 && !bad, rule, "BuildBaseType descends into a typedef with its own configuration node", bbt.Pos(), "BuildType(cfgNode, …)", "the typedef's type is built for another node than the one the type is used at: an identityref reached through a typedef of another module gets its values named relative to the typedef's module")
 }
